@@ -507,11 +507,11 @@ Definition enc_opt (o : option str) : list N := match o with Some v => 1 :: v | 
 Definition mkrun profile runid dylib tdir entries : run_cfg :=
   {| rc_profile := profile; rc_run_id := runid; rc_platform := Linux; rc_dylib_path := dylib;
      rc_target_dir := tdir; rc_cargo_env := env_map_new entries |}.
-Definition tenv (r : run_cfg) cwd pkg attempt gslot (inh : env) (keys : list str) : list (list N) :=
+Definition tenv (r : run_cfg) cwd pkg attempt gslot (setup inh : env) (keys : list str) : list (list N) :=
   match test_assignments r
           {| sc_cwd := cwd; sc_package := pkg; sc_build_script := None; sc_non_test_binaries := [] |}
           {| ac_attempt := attempt; ac_global_slot := gslot; ac_group := [64; 103; 108; 111; 98; 97; 108];
-             ac_group_slot := None; ac_setup_env := [] |} inh with
+             ac_group_slot := None; ac_setup_env := setup |} inh with
   | None => [[2]]
   | Some e => map (fun k => enc_opt (child_env_get k e inh)) keys
   end.
@@ -533,9 +533,13 @@ def gen_scenario(r, idx, root, launcher, thorough):
     tests = [dict(name=nm, ignored=r.random() < 0.35) for nm in names]
     flaky = [t["name"] for t in tests if r.random() < 0.25]
     base = gen_command_case(r, idx, root)
+    script = r.choice([None, ["--script", gen_word(r)]])
+    # what the setup script exports (keys starting with NEXTEST are rejected by nextest: C18)
+    script_env = r.choice([[], [["FROM_SCRIPT", "1"]], [["CARGO_PKG_NAME", "from-script"], ["FOO", "s=t u"]],
+                           [["CARGO_MANIFEST_DIR", "/from/script"], ["OUT_DIR", "/o"], ["lower", ""]]]) if script else []
     return dict(idx=idx, tests=tests, fail_first_attempt=flaky, retries=1 if flaky else r.choice([0, 2]),
                 extra=r.choice([[], ["--extra", "a b", "it's"], [gen_word(r) for _ in range(r.randint(1, 3))]]),
-                double_spawn=r.random() < 0.6, script=r.choice([None, ["--script", gen_word(r)]]),
+                double_spawn=r.random() < 0.6, script=script, script_env=script_env,
                 test_threads=r.choice([1, 2, 4]), entries=base["entries"], inherited=base["inherited"],
                 pkg=base["pkg"], profile="default")
 
@@ -563,7 +567,8 @@ def write_scenario(sc, root, launcher):
         open(pth, "w").write(content)
     scen = dict(root=root, metadata=hc["metadata"], package_id=hc["package_id"], config_cwd="w/sub",
                 cli_configs=hc["cli_configs"], double_spawn=sc["double_spawn"], cwd=cwd, tests=sc["tests"],
-                fail_first_attempt=sc["fail_first_attempt"], profile=sc["profile"])
+                fail_first_attempt=sc["fail_first_attempt"], profile=sc["profile"],
+                script_env=sc.get("script_env", []))
     sp = os.path.join(root, "scenario.json")
     json.dump(scen, open(sp, "w"))
     return sp, os.path.join(root, "log.jsonl"), cwd
@@ -634,7 +639,14 @@ def oracle_scenario(sc, obs, launcher):
         if os.path.realpath(rec["cwd"]) != os.path.realpath(obs["cwd"]):
             fails.append(f"test {t['name']!r} runs in {rec['cwd']!r}, the package directory is {obs['cwd']!r}")
         seen_attempts[t["name"]] = seen_attempts.get(t["name"], 0) + 1
+        from_script = dict(sc.get("script_env", []))
         for k, v in fixed.items():
+            if k in from_script and not k.startswith("NEXTEST"):
+                # the setup-script layer is applied last (C18): outside this property's claim, but then
+                # the script's value must be what the test sees
+                if e.get(k) != from_script[k]:
+                    fails.append(f"test {t['name']!r}: {k} is {e.get(k)!r}, the setup script exported {from_script[k]!r}")
+                continue
             if e.get(k) == v:
                 continue
             if k == "CARGO_PKG_RUST_VERSION" and in_known_class(pkg_case) and e.get(k) == v + ".0":
@@ -682,7 +694,8 @@ def check_e2e(chk, r, thorough, corp):
                                     dict(name="flaky one", ignored=False), dict(name=" lead", ignored=False),
                                     dict(name="", ignored=False), dict(name="--exact", ignored=True)],
                       fail_first_attempt=["flaky one"], retries=1, extra=["--extra", "a b", "it's"],
-                      double_spawn=True, script=["--script", "x y"], test_threads=2,
+                      double_spawn=True, script=["--script", "x y"], script_env=[["FROM_SCRIPT", "a=b c"]],
+                      test_threads=2,
                       entries=[(1, "NEXTEST_RUN_ID", "evil", True, None), (1, "NEXTEST", "0", None, None),
                                (0, "FOO", "bar", None, None), ("cli", "CARGO_MANIFEST_DIR", "/evil", None, None)],
                       inherited=[["NEXTEST_RUN_ID", "inherited"], ["CARGO_PKG_NAME", "inh"],
@@ -739,9 +752,11 @@ def check_e2e(chk, r, thorough, corp):
                                   dict(input=dict(scenario=shown), clause=f"test {nm!r} has NEXTEST_TEST_GLOBAL_SLOT "
                                        f"{slot!r} with {sc['test_threads']} test threads"))
                     return distinct, n_proc
+                setup = sc.get("script_env", []) if sc["script"] else []
+                att = e.get("__NEXTEST_ATTEMPT", "")
                 exprs.append(f"tenv {rc} {coq_str(obs['cwd'])} {coq_pkg(sc['pkg'])} "
-                             f"{coq_str(e.get('__NEXTEST_ATTEMPT', ''))} {coq_str(slot)} {coq_pairs(inh)} {ck}")
-                attempts.setdefault(nm, []).append(e.get("__NEXTEST_ATTEMPT"))
+                             f"{coq_str(att)} {coq_str(slot)} {coq_pairs(setup)} {coq_pairs(inh)} {ck}")
+                attempts.setdefault(nm, []).append(att)
             expect.append([[1] + cps(e[x]) if x in e else [0] for x in keys])
             where.append((shown, rec["argv"], keys))
         for nm, al in attempts.items():
